@@ -165,6 +165,49 @@ theorem parseProps_all (e : WAtom → PAtom) :
     have := ih (k + 1) (pre ++ [withProps a (e a)]) (by simp; omega) (by omega) (fun x hx => hiso x (by simp [hx]))
     simpa [List.append_assoc] using this
 
+/-! ## written property lines are not S-group lines -/
+
+theorem hasSgroupLine_false : ∀ (ls : List Str), (∀ l ∈ ls, sgroupPrefixes.any (startsWith l) = false) →
+    hasSgroupLine ls = false := by
+  intro ls
+  induction ls with
+  | nil => intro _; rfl
+  | cons l ls ih =>
+    intro h
+    simp only [hasSgroupLine]
+    split
+    · rfl
+    · simp [h l (by simp), ih (fun x hx => h x (by simp [hx]))]
+
+theorem propLines_noSgroup (k : Nat) (a : WAtom) : ∀ l ∈ writePropLines k a, sgroupPrefixes.any (startsWith l) = false := by
+  intro l hl
+  have key : ∀ (tag tl : Str), tag.length = 10 → sgroupPrefixes.any (startsWith tag) = false →
+      sgroupPrefixes.any (startsWith (tag ++ tl)) = false := by
+    intro tag tl hlen h
+    simp only [sgroupPrefixes, List.map_cons, List.map_nil, List.any_cons, List.any_nil, Bool.or_false] at h ⊢
+    rw [startsWith_append_of_le _ _ _ (by rw [hlen]; decide), startsWith_append_of_le _ _ _ (by rw [hlen]; decide),
+      startsWith_append_of_le _ _ _ (by rw [hlen]; decide), startsWith_append_of_le _ _ _ (by rw [hlen]; decide),
+      startsWith_append_of_le _ _ _ (by rw [hlen]; decide)]
+    exact h
+  unfold writePropLines at hl
+  simp only [List.mem_append] at hl
+  rcases hl with (hl | hl) | hl
+  · split at hl
+    · simp only [List.mem_singleton] at hl; subst hl
+      simp only [List.append_assoc]
+      exact key _ _ rfl (by decide)
+    · cases hl
+  · split at hl
+    · simp only [List.mem_singleton] at hl; subst hl
+      simp only [List.append_assoc]
+      exact key _ _ rfl (by decide)
+    · cases hl
+  · split at hl
+    · simp only [List.mem_singleton] at hl; subst hl
+      simp only [List.append_assoc]
+      exact key _ _ rfl (by decide)
+    · cases hl
+
 /-! ## generic glue -/
 
 theorem mapM'_ok_length {w : α → R β} : ∀ {xs : List α} {ls : List β}, mapM' w xs = .ok ls → ls.length = xs.length := by
@@ -452,6 +495,14 @@ theorem molblock_roundtrip (mapping : Bool) (g : WMol) (h : WFMol g) (ls : List 
             (sL "  0  0  0  0            999 V2000\n") 3 3 hI hJ
           simpa [List.append_assoc] using this
         generalize hpl : (List.map (fun p => writePropLines p.fst p.snd) (enumFrom1 g.atoms)).flatten = pl
+        have hnosg : hasSgroupLine (pl ++ [sL "M  END\n"]) = false := by
+          apply hasSgroupLine_false
+          intro l hl
+          rw [← hpl] at hl
+          simp only [List.mem_append, List.mem_flatten, List.mem_map, List.mem_singleton] at hl
+          rcases hl with ⟨pls, ⟨p, _, rfl⟩, hl⟩ | hl
+          · exact propLines_noSgroup p.1 p.2 l hl
+          · subst hl; decide
         have hprops : parseProps (pl ++ [sL "M  END\n"]) (g.atoms.map (expectedAtom mapping)) =
             .ok (g.atoms.map fun a => withProps a (expectedAtom mapping a)) := by
           rw [← hpl]
@@ -500,7 +551,7 @@ theorem molblock_roundtrip (mapping : Bool) (g : WMol) (h : WFMol g) (ls : List 
         have htitle : strip n0 = strip g.name := by rw [← hn0]; exact strip_snoc_newline g.name
         unfold parseMol2000
         simp only [lineAt, d3, d0, c1, c2, intE, pyInt_fmtD, bind, Except.bind, pure, Except.pure, hz,
-          Bool.false_eq_true, if_false, sA, sB, sC, hpa, hpwb, hprops, htitle]
+          Bool.false_eq_true, if_false, sA, sB, sC, hpa, hpwb, hnosg, hprops, htitle]
         simp [expectedMol, List.map_append, List.filterMap_append, expWedge, expBond, List.filterMap_map, Function.comp_def]
 
 /-! ## decidable versions of the well-formedness predicates (to exhibit instances) -/
